@@ -1,19 +1,21 @@
 #!/bin/bash
 # try_mutation.sh <seed-dir with patch.diff, demo.py, meta.json> <PROP> [tier]
 # Confirms the mutation (demo passes clean / fails mutated, suite passes mutated) and runs ./check on it.
+# Every invocation works in its own scratch worktree and output folder, so several may run side by side.
 set -u
 d="$1"; prop="$2"; tier="${3:-quick}"
 wt=$(mktemp -d /tmp/trymut.XXXXXX); rmdir "$wt"
+out="$wt.out"; mkdir -p "$out"
 git -C /repo worktree add -q "$wt" HEAD || exit 9
-cleanup() { git -C /repo worktree remove --force "$wt" >/dev/null 2>&1; }
+cleanup() { git -C /repo worktree remove --force "$wt" >/dev/null 2>&1; rm -rf "$out"; }
 trap cleanup EXIT
 cd "$wt"
-PYTHONPATH="$wt" /venv/bin/python "$d/demo.py" >/tmp/trymut.clean.out 2>&1; c=$?
+PYTHONPATH="$wt" /venv/bin/python "$d/demo.py" >"$out/clean.out" 2>&1; c=$?
 if ! git apply "$d/patch.diff"; then echo "RESULT patch-does-not-apply"; exit 8; fi
-PYTHONPATH="$wt" /venv/bin/python "$d/demo.py" >/tmp/trymut.mut.out 2>&1; m=$?
+PYTHONPATH="$wt" /venv/bin/python "$d/demo.py" >"$out/mut.out" 2>&1; m=$?
 t=$(PYTHONPATH="$wt" /venv/bin/python -m pytest -q -p no:cacheprovider --timeout=900 tests 2>&1 | tail -1)
 echo "demo clean rc=$c mutated rc=$m ; suite: $t"
 cd /verif
-VERIF_EVIDENCE_DIR=/tmp/trymut.evidence VERIF_REPO="$wt" ./check "$prop" --tier "$tier" > /tmp/trymut.check.out 2>&1; rc=$?
-grep -E "^VIOLATION|^FAIL|^DISAGREE|^BROKEN" /tmp/trymut.check.out | cut -c1-400 | head -6
+VERIF_EVIDENCE_DIR="$out/evidence" VERIF_REPO="$wt" ./check "$prop" --tier "$tier" > "$out/check.out" 2>&1; rc=$?
+grep -E "^VIOLATION|^FAIL|^DISAGREE|^BROKEN" "$out/check.out" | cut -c1-400 | head -6
 echo "RESULT check rc=$rc"
